@@ -37,6 +37,20 @@ Proof. unfold cle; intros; lia. Qed.
 
 Definition keepS (c : gctx) (o3 : nat) (s s' : list sv) : Prop :=
   length s <= length s' /\ forall i, (g_keep c i \/ g_koff c <= i < o3) -> nth_error s i = nth_error s' i.
+(* what every continuation keeps: the kept variables *)
+Definition keepK (c : gctx) (s s' : list sv) : Prop :=
+  length s <= length s' /\ forall i, g_keep c i -> nth_error s i = nth_error s' i.
+(* the area above the keep offset (frames of closures that pending forks may re-enter) has to be kept only
+   while the generator has pending forks of its own *)
+Definition keepS' (c : gctx) (o3 : nat) (fk' : list fork) (s s' : list sv) : Prop :=
+  match fk' with [] => keepK c s s' | _ => keepS c o3 s s' end.
+Lemma keepS_K : forall c o s s', keepS c o s s' -> keepK c s s'.
+Proof. intros c o s s' [L H]. split; auto. Qed.
+Lemma keepS'_K : forall c o f s s', keepS' c o f s s' -> keepK c s s'.
+Proof. intros c o [|x f] s s' H; simpl in H; [auto|eapply keepS_K; eauto]. Qed.
+Lemma keepK_refl : forall c s, keepK c s s.
+Proof. split; auto. Qed.
+
 Definition okerr (n0 : nat) (x : verr) : Prop := match x with VE (EB n) => n < n0 | _ => True end.
 
 Lemma keepS_refl : forall c o s, keepS c o s s.
@@ -89,7 +103,7 @@ Fixpoint G (c : gctx) (ws : list jv) (T : state -> Prop) (s : state) : Prop :=
        steps s (N (g_sc c) (g_pc c) (SV w :: g_st c) (fk' ++ g_base c) vs3 n3 o3 g3) /\
        chg (g_own c) (vars_of s) vs3 /\ cle (lbl_of s) (gx_of s) n3 g3 /\
        (g_off c <= o3 <= length vs3 /\ Forall (fun f => g_ctr c <= f_ctr f) fk') /\
-       forall vs2 n2 g2, keepS c o3 vs3 vs2 -> cle n3 g3 n2 g2 ->
+       forall vs2 n2 g2, keepS' c o3 fk' vs3 vs2 -> cle n3 g3 n2 g2 ->
          G c ws' T (B None (fk' ++ g_base c) vs2 n2 g2) /\
          (forall x, okerr (g_n0 c) x -> exists vs4 n4 g4,
              steps (B (Some x) (fk' ++ g_base c) vs2 n2 g2) (B (Some x) (g_base c) vs4 n4 g4) /\
@@ -134,16 +148,16 @@ Qed.
 Lemma G_ctx : forall cb c fx (Q : list sv -> nat -> gx -> Prop) (T T' : state -> Prop),
   g_sc cb = g_sc c -> g_pc cb = g_pc c -> g_st cb = g_st c -> g_base cb = fx ++ g_base c ->
   (forall i, g_own cb i -> g_own c i) ->
-  (forall o a b, keepS c o a b -> keepS cb o a b) ->
+  (forall o a b, keepS c o a b -> keepS cb o a b) -> (forall a b, keepK c a b -> keepK cb a b) ->
   g_n0 c <= g_n0 cb -> g_off c <= g_off cb -> g_ctr c <= g_ctr cb -> Forall (fun f => g_ctr c <= f_ctr f) fx ->
   (forall a b n g n' g', Q a n g -> chg (g_own cb) a b -> cle n g n' g' -> Q b n' g') ->
-  (forall o a b n g n' g', g_off cb <= o -> Q a n g -> keepS c o a b -> cle n g n' g' -> Q b n' g') ->
+  (forall o f a b n g n' g', g_off cb <= o -> Q a n g -> keepS' c o (f ++ fx) a b -> cle n g n' g' -> Q b n' g') ->
   (forall x vs n g, Q vs n g -> okerr (g_n0 c) x -> exists vs4 n4 g4,
       steps (B (Some x) (fx ++ g_base c) vs n g) (B (Some x) (g_base c) vs4 n4 g4) /\ chg (g_own c) vs vs4 /\ cle n g n4 g4) ->
   (forall s, Q (vars_of s) (lbl_of s) (gx_of s) -> T s -> T' s) ->
   forall ws s, Q (vars_of s) (lbl_of s) (gx_of s) -> G cb ws T s -> G c ws T' s.
 Proof.
-  intros cb c fx Q T T' Hsc Hpc Hst Hbase Hown Hkeep Hn0 Hoff Hctr Hfx Q1 Q2 Htr Hmap.
+  intros cb c fx Q T T' Hsc Hpc Hst Hbase Hown Hkeep HkeepK Hn0 Hoff Hctr Hfx Q1 Q2 Htr Hmap.
   induction ws; simpl; intros s HQ HG.
   - destruct HG as (s' & St & Ch & Le & HT). exists s'.
     split; [auto|]. split; [eapply chg_mono; eauto|]. split; [auto|].
@@ -154,7 +168,11 @@ Proof.
     split; [split; [lia|]; apply Forall_app; split; [eapply Forall_impl; [|exact Hfk]; simpl; intros; lia|exact Hfx]|].
     intros vs2 n2 g2 K L2.
     assert (HQ2 : Q vs2 n2 g2). { eapply Q2; [exact (proj1 Ho)|eapply Q1; [exact HQ|exact Ch|exact Le]|eauto|auto]. }
-    destruct (R vs2 n2 g2 (Hkeep _ _ _ K) L2) as [R1 R2]. split.
+    assert (K' : keepS' cb o3 fk' vs3 vs2).
+    { destruct fk' as [|f0 fk0]; simpl in *.
+      - apply HkeepK. eapply keepS'_K; eauto.
+      - apply Hkeep. exact K. }
+    destruct (R vs2 n2 g2 K' L2) as [R1 R2]. split.
     + apply (IHws (B None (fk' ++ g_base cb) vs2 n2 g2)); auto.
     + intros x Hx.
       assert (Hx' : okerr (g_n0 cb) x). { destruct x as [[]|]; simpl in *; auto. lia. }
@@ -235,16 +253,24 @@ Proof.
     assert (Hc3 : g_ctr c <= ctr g3) by (destruct Le; lia).
     destruct (fb g a) as [[os1 x1] g1] eqn:Efb.
     pose proof (Hbody a g fk' vs3 n3 o3 g3 os1 x1 g1 HJ3 Ho Hc3 Hfk Efb) as Hb.
-    set (Q := fun (a : list sv) (n : nat) (gg : gx) => keepS c1 o3 vs3 a /\ cle n3 g3 n gg).
+    set (Q := fun (a : list sv) (n : nat) (gg : gx) => keepS' c1 o3 fk' vs3 a /\ cle n3 g3 n gg).
     assert (Q1 : forall a b n gg n' gg', Q a n gg -> chg (fun i => ownb0 i \/ o3 <= i) a b -> cle n gg n' gg' -> Q b n' gg').
-    { intros p q n gg n' gg' [[L K] Hn] [L' C] Hn'. split; [|eapply cle_trans; eauto]. split; [lia|].
-      intros i Hi. rewrite K by auto. apply C. rewrite Hkoff1 in Hi. intros [Hb0|Hb1].
-      - destruct Hi as [Hi|Hi]; [apply Hk1 in Hi; tauto|]. apply Hownb0 in Hb0. lia.
-      - destruct Hi as [Hi|Hi]; [apply Hk1 in Hi; lia|lia]. }
-    assert (Q2 : forall o a b n gg n' gg', o3 <= o -> Q a n gg -> keepS c o a b -> cle n gg n' gg' -> Q b n' gg').
-    { intros o p q n gg n' gg' Hoo [[L K] Hn] [L' C] Hn'. split; [|eapply cle_trans; eauto]. split; [lia|].
-      intros i Hi. rewrite K by auto. apply C. rewrite Hkoff1 in Hi.
-      destruct Hi as [Hi|Hi]; [left; apply Hk1; auto|right; lia]. }
+    { intros p q n gg n' gg' [HK Hn] [L' C] Hn'. split; [|eapply cle_trans; eauto].
+      destruct fk' as [|f0 fk0]; simpl in *.
+      - destruct HK as [L K]. split; [lia|]. intros i Hi. rewrite K by auto. apply C.
+        intros [Hb0|Hb1]; [apply Hk1 in Hi; tauto|apply Hk1 in Hi; lia].
+      - destruct HK as [L K]. split; [lia|]. intros i Hi. rewrite K by auto. apply C. rewrite Hkoff1 in Hi. intros [Hb0|Hb1].
+        + destruct Hi as [Hi|Hi]; [apply Hk1 in Hi; tauto|]. apply Hownb0 in Hb0. lia.
+        + destruct Hi as [Hi|Hi]; [apply Hk1 in Hi; lia|lia]. }
+    assert (Q2 : forall o f a b n gg n' gg', o3 <= o -> Q a n gg -> keepS' c o (f ++ fk') a b -> cle n gg n' gg' -> Q b n' gg').
+    { intros o f p q n gg n' gg' Hoo [HK Hn] HC Hn'. split; [|eapply cle_trans; eauto].
+      destruct fk' as [|f0 fk0]; simpl in *.
+      - apply keepS'_K in HC. destruct HK as [L K], HC as [L' C]. split; [lia|].
+        intros i Hi. rewrite K by auto. apply C. apply Hk1; auto.
+      - assert (HC' : keepS c o p q) by (destruct f; simpl in HC; exact HC).
+        destruct HK as [L K], HC' as [L' C]. split; [lia|].
+        intros i Hi. rewrite K by auto. apply C. rewrite Hkoff1 in Hi.
+        destruct Hi as [Hi|Hi]; [left; apply Hk1; auto|right; lia]. }
     assert (Qtr : forall y vs n gg, Q vs n gg -> okerr (g_n0 c) y -> exists vs4 n4 g4,
                steps (B (Some y) (fk' ++ g_base c) vs n gg) (B (Some y) (g_base c) vs4 n4 g4) /\
                chg (g_own c) vs vs4 /\ cle n gg n4 g4).
@@ -253,13 +279,13 @@ Proof.
       exists vs4, n4, g4. split; [auto|]. split; [exact (chg_mono _ _ _ _ Hown1 Ch4)|auto]. }
     assert (Hks : forall o p q, keepS c o p q -> keepS (cbody fk' o3 (ctr g3)) o p q).
     { intros o p q H. exact H. }
-    assert (HQ0 : Q vs3 n3 g3) by (split; [apply keepS_refl|apply cle_refl]).
+    assert (HQ0 : Q vs3 n3 g3) by (split; [destruct fk'; simpl; [apply keepK_refl|apply keepS_refl]|apply cle_refl]).
     assert (Hob : forall i, g_own (cbody fk' o3 (ctr g3)) i -> g_own c i).
     { simpl. intros i [Hi|Hi]; [apply Hownb0; auto|apply Hoffown; lia]. }
     destruct x1 as [ex|].
     + inversion HF; subst.
       eapply G_pre; [exact St|exact (chg_mono _ _ _ _ Hown1 Ch)|exact Le|].
-      match type of Hb with G _ ?o _ ?st0 => refine (G_ctx (cbody fk' o3 (ctr g3)) c fk' Q _ _ eq_refl eq_refl eq_refl eq_refl Hob Hks (le_n _) Ho1 Hc3 Hfk Q1 Q2 Qtr _ o st0 HQ0 Hb) end.
+      match type of Hb with G _ ?o _ ?st0 => refine (G_ctx (cbody fk' o3 (ctr g3)) c fk' Q _ _ eq_refl eq_refl eq_refl eq_refl Hob Hks (fun a b H => H) (le_n _) Ho1 Hc3 Hfk Q1 Q2 Qtr _ o st0 HQ0 Hb) end.
       intros s1 HQ1 (e & vs4 & n4 & g4 & St4 & Ch4 & Le4 & HE & HJ4). simpl in St4, Ch4. cbn [cbody g_sc g_ce] in HE.
       destruct (encR_some _ _ _ _ _ HE) as (y & ->).
       apply encR_lbls with (ce' := g_ce c) in HE; auto.
@@ -275,7 +301,7 @@ Proof.
     + destruct (foldgen ws1 g1) as [[os2 x2] g2] eqn:Efg. inversion HF; subst.
       eapply G_pre; [exact St|exact (chg_mono _ _ _ _ Hown1 Ch)|exact Le|].
       apply G_app.
-      match type of Hb with G _ ?o _ ?st0 => refine (G_ctx (cbody fk' o3 (ctr g3)) c fk' Q _ _ eq_refl eq_refl eq_refl eq_refl Hob Hks (le_n _) Ho1 Hc3 Hfk Q1 Q2 Qtr _ o st0 HQ0 Hb) end.
+      match type of Hb with G _ ?o _ ?st0 => refine (G_ctx (cbody fk' o3 (ctr g3)) c fk' Q _ _ eq_refl eq_refl eq_refl eq_refl Hob Hks (fun a b H => H) (le_n _) Ho1 Hc3 Hfk Q1 Q2 Qtr _ o st0 HQ0 Hb) end.
       intros s1 HQ1 (e & vs4 & n4 & g4 & St4 & Ch4 & Le4 & HE & HJ4). simpl in St4, Ch4, HE. subst e.
       assert (HQ4 : Q vs4 n4 g4) by (eapply Q1; eauto).
       destruct HQ4 as [K4 Hn4]. destruct (R vs4 n4 g4 K4 Hn4) as [R1 _]. rewrite Hbase in R1.
